@@ -71,13 +71,10 @@ func (s String) Cut(st funcGen.Stack[Value]) (Value, error) {
 			if n <= 0 {
 				n = math.MaxInt
 			}
-			for i := 0; i < int(n); i++ {
+			for i := 0; i < int(n) && len(str) > 0; i++ {
 				r, l := utf8.DecodeRuneInString(str)
 				res.WriteRune(r)
 				str = str[l:]
-				if len(str) == 0 {
-					return String(res.String()), nil
-				}
 			}
 			return String(res.String()), nil
 		}
